@@ -518,13 +518,16 @@ func (e *Env) bin(x *CE, pos bool) CV {
 		}
 		e.want(a, "Int", x.Args[0])
 		e.want(b, "Int", x.Args[1])
+		if op == "*" {
+			return g.cv(mulTerm(a.S, b.S), "Int", a.Ty)
+		}
 		return g.cv("("+op+" "+a.S+" "+b.S+")", "Int", a.Ty)
 	case "/":
 		e.want(a, "Int", x.Args[0])
-		return g.cv("(tdiv "+a.S+" "+b.S+")", "Int", a.Ty)
+		return g.cv(divTerm("tdiv", a.S, b.S), "Int", a.Ty)
 	case "%":
 		e.want(a, "Int", x.Args[0])
-		return g.cv("(tmod "+a.S+" "+b.S+")", "Int", a.Ty)
+		return g.cv(divTerm("tmod", a.S, b.S), "Int", a.Ty)
 	}
 	fail("contract operator %s unsupported", op)
 	return CV{}
@@ -848,6 +851,9 @@ func (e *Env) call(x *CE, pos bool) CV {
 		var as []string
 		for i := range args {
 			as = append(as, e.coerce(argv(i), sf.Args[i]).S)
+		}
+		if name == "tdiv" || name == "tmod" {
+			return g.cv(divTerm(name, as[0], as[1]), sf.Ret, nil)
 		}
 		return g.cv(app(name, as...), sf.Ret, nil)
 	}
